@@ -794,7 +794,7 @@ func (h *invarHarness) Run(t *testing.T, ci any) *Outcome {
 					return mk(what+":sequence-differs"+feat, "same rows, different sequence although ORDER BY lists every output column\nbase:    %q\nvariant: %q\nvariant query: %s", base.keys, got.keys, vq.render())
 				}
 				extra, missing := multisetDiff(sortedCopy(got.keys), sortedCopy(base.keys))
-				return mk(what+":rows-differ"+feat, "extra=%q missing=%q\nvariant query: %s", extra, missing, vq.render())
+				return mk(what+":rows-differ"+feat, "variant query: %s\nvariant knobs: %s injected: %v\nextra=%q missing=%q", vq.render(), jsonStr(k), erv.fired, extra, missing)
 			}
 			return nil
 		}
